@@ -26,15 +26,14 @@ func (c16Payload) Type() string             { return "c16" }
 func (c16Payload) Marshal() ([]byte, error) { return []byte{1}, nil }
 func (*c16Payload) Unmarshal([]byte) error  { return nil }
 
-type c16Publisher struct{ sent func(uint64) }
+type c16Publisher struct{ sent func(uint64) error }
 
 func (p *c16Publisher) Publish(_ context.Context, data []byte, _ ...pubsub.PubOpt) error {
 	var m pb.BroadcastNetworkMessage
 	if err := proto.Unmarshal(data, &m); err != nil {
 		return err
 	}
-	p.sent(m.SequenceNumber)
-	return nil
+	return p.sent(m.SequenceNumber)
 }
 
 type c16Chan struct{ c *channel }
@@ -48,7 +47,9 @@ func (a *c16Chan) Send(ctx context.Context) error { return a.c.Send(ctx, &c16Pay
 
 type c16Adapter struct{ id *identity }
 
-func (ad *c16Adapter) New(sent func(uint64)) c16common.Chan {
+func (ad *c16Adapter) CanFailPublish() bool { return true }
+
+func (ad *c16Adapter) New(sent func(uint64) error) c16common.Chan {
 	ticks := make(chan uint64)
 	c := &channel{
 		name:                 "c16",
